@@ -62,6 +62,37 @@ M = [
   "        self.minX = 10000\n", "        self.minX = 0\n", "bounds wrong for trees entirely right of ... (never: root is 0) -- catches only if minX > 0; kept as equivalence probe"),
  ("c18_y_level_plus_one_for_leaves", "C18", "mathy_core/layout.py",
   "        node.x = x * unit_x_multiplier\n        assert node.y is not None\n        node.y *= unit_y_multiplier\n", "        node.x = x * unit_x_multiplier\n        assert node.y is not None\n        node.y *= unit_y_multiplier if unit_y_multiplier >= 1 else unit_y_multiplier * unit_y_multiplier\n", "unit_y < 1 applied twice"),
+
+ ("w_cs_accepts_subtract", "C01", "mathy_core/rules/commutative_swap.py",
+  "        if isinstance(node, (AddExpression, EqualExpression)):\n            return True\n", "        if isinstance(node, (AddExpression, EqualExpression)) or type(node).__name__ == \"SubtractExpression\" and isinstance(node.right, ConstantExpression) and isinstance(node.left, ConstantExpression):\n            return True\n", "commutes c1 - c2"),
+ ("w_ag_accepts_subtract", "C01", "mathy_core/rules/associative_swap.py",
+  "        if isinstance(node.parent, AddExpression) and isinstance(node, AddExpression):\n            return True\n", "        if isinstance(node.parent, AddExpression) and isinstance(node, AddExpression):\n            return True\n        if type(node.parent).__name__ == \"SubtractExpression\" and isinstance(node, AddExpression) and node.parent.left is node:\n            return True\n", "regroups (a + b) - c into a + (b - c)?? -> rotation gives a + (b - c): value-preserving; right rotation only -- probe"),
+ ("w_dm_accepts_difference", "C01", "mathy_core/rules/distributive_multiply_across.py",
+  "            if node.left and isinstance(node.right, AddExpression):\n                return True\n", "            if node.left and (isinstance(node.right, AddExpression) or type(node.right).__name__ == \"SubtractExpression\"):\n                return True\n", "a * (b - c) -> ab + ac"),
+ ("c03_minus_tighter", "C03", "mathy_core/parser.py",
+  "            if expected:\n                right = self.parse_mult()\n\n            if not expected or not right:\n                raise UnexpectedBehavior(\n                    \"Expected an expression after + or - operator, got: {}\".format(",
+  "            if expected:\n                right = self.parse_mult() if opType == TOKEN_TYPES.Plus or self.current_token.type != TOKEN_TYPES.Function else self.parse_exponent()\n\n            if not expected or not right:\n                raise UnexpectedBehavior(\n                    \"Expected an expression after + or - operator, got: {}\".format(", "a - sgn(x) * y reads as (a - sgn(x)) * y"),
+ ("c03_trailing_dot_int", "C03", "mathy_core/tokenizer.py",
+  "    return float(value) if \"e\" in value or \".\" in value else int(value)\n", "    return float(value) if \"e\" in value or \".\" in value.rstrip(\".\") else int(value.rstrip(\".\"))\n", "'1.' becomes the int 1"),
+ ("c03_negative_literal_before_paren", "C03", "mathy_core/parser.py",
+  "        if negate:\n            return NegateExpression(exp)\n\n        return exp\n", "        if negate:\n            if isinstance(exp, PowerExpression) and isinstance(exp.left, VariableExpression) and isinstance(exp.right, ConstantExpression) and exp.right.value == 0:\n                return exp\n            return NegateExpression(exp)\n\n        return exp\n", "-x^0 loses its sign"),
+ ("c13_clone_from_root_first_path_match", "C13", "mathy_core/expressions.py",
+  "        node = node if node is not None else self\n        self.cloned_node = None\n        self.cloned_target = node.path_to_root()\n        result = node.get_root().clone()\n        if not self.cloned_node:  # pragma: nocover",
+  "        node = node if node is not None else self\n        self.cloned_node = None\n        self.cloned_target = node.path_to_root()\n        result = node.get_root().clone()\n        if self.cloned_node is not None and self.parent is not None and self.parent.left is not self and type(self.parent.left) is type(self) and self.is_leaf() and self.parent.left.is_leaf():\n            self.cloned_node = self.cloned_node.parent.left\n        if not self.cloned_node:  # pragma: nocover", "for 'x + x' style siblings of the same class the left one is returned"),
+ ("c14_get_sibling_left_returns_self", "C14", "mathy_core/tree.py",
+  "        if self.parent and self.parent.left == self:\n            return self.parent.right  # type:ignore\n", "        if self.parent and self.parent.left == self:\n            return self.parent.right or self  # type:ignore\n", "left-only child reports itself as sibling"),
+ ("c14_postorder_stop_lost_from_left", "C14", "mathy_core/tree.py",
+  "        if self.left and self.left.visit_postorder(visit_fn, depth + 1, data) == STOP:\n            return STOP\n", "        if self.left and self.left.visit_postorder(visit_fn, depth + 1, data) == STOP and self.right is None:\n            return STOP\n", "STOP from a left subtree is ignored when a right subtree exists"),
+ ("c15_rotate_keeps_stale_parent_of_inner", "C15", "mathy_core/tree.py",
+  "            parent.set_right(node.left)\n            node.left = parent\n", "            parent.right = node.left\n            node.left = parent\n", "inner subtree keeps its old parent pointer after a right-child rotation"),
+ ("c17_split_truncates", "C17", "mathy_core/problems.py",
+  "    right = value - left\n", "    right = int((1 - factor) * value)\n", "split loses one when both halves truncate"),
+ ("c17_blocker_var_not_excluded", "C17", "mathy_core/problems.py",
+  "    blockers = get_blocker(number_blockers, [var])\n", "    blockers = get_blocker(number_blockers, [var] if number_blockers < 6 else [])\n", "with many blockers the focus variable may be used as a blocker (still has like terms) -- probe, may be equivalent for the promise"),
+ ("c05_sub_float_swap", "C05", "mathy_core/expressions.py",
+  "    def operate(self, one: NumberType, two: NumberType) -> NumberType:\n        return one - two\n", "    def operate(self, one: NumberType, two: NumberType) -> NumberType:\n        return one - two if abs(one) < 1e15 or abs(two) < 1e15 else float(one) - float(two)\n", "huge ints subtracted in floating point"),
+ ("c16_get_term_ex_negative_power", "C16", "mathy_core/util.py",
+  "                return TermEx(-1, child.left.identifier, child.right.value)\n", "                return TermEx(-1, child.left.identifier, abs(child.right.value))\n", "-x^-2 reports exponent 2"),
 ]
 def main():
     os.makedirs(OUT, exist_ok=True)
